@@ -791,6 +791,15 @@ def damage_cases(rng, quick=True):
         b = B()
         b["files"][src_key(b, "zz.go")] = "package other\n\ntype Z struct{}\n"
         add(b, [cmd] + fl + sel, "twoPackages")
+        # ---- write phase, no fault injection: the output NAME is taken by a directory: os.Rename fails, the temp file is removed
+        # (since /repo 84225b5), exit 1, nothing changed ----
+        b = B()
+        outname = "a.shoot%s.%s.go" % (cmd, ("" if g0[:1].isupper() else "_") + g0.lower())
+        b["files"][src_key(b, outname + "/keep.txt")] = "a directory called like the output\n"
+        add(b, [cmd] + fl + sel, "outputBlocked", outs=["x"], tags=["output name is a directory"])
+        b = B()
+        b["files"][src_key(b, "a.shoot%s.go/keep.txt" % cmd)] = "a directory called like the all-in-one output\n"
+        add(b, [cmd] + fl + ["-type=*"], "outputBlocked", outs=["x"], tags=["all-in-one output name is a directory"])
         # ---- clean phase: a matching file without a trailing newline / an empty one (Clean used to fail with io.EOF after
         # the write; repaired in /repo 63484d4: a plain successful run now, asserted) ----
         b = B()
